@@ -629,6 +629,8 @@ def cond_filter(rep, ex: Explorer):
                                 okv = (isinstance(v, Const) and v.value is None) if w in unranked else (isinstance(v, LinV) and v.lin == F.lin_term(("r", w)))
                                 req = f"the stored rank of {w}"
                             if not okv:
+                                if isinstance(v, Sym) and isinstance(v.label, tuple) and v.label[:1] in (("mcall",), ("call",), ("ocall",), ("attr",)):
+                                    raise AnalysisError(f"{site}: the value stored for world {w} comes from a call the analysis has no model of ({v!r})")
                                 bad.append(f"{w} -> {v!r}, required {req}")
                         rep.check(not bad, "COND.filter", site, "ranks of the kept worlds", "each kept world is mapped to its own rank, and only kept worlds appear", extracted=f"{slot}: " + ("; ".join(bad)[:240] or "own ranks"), required="{w: rank(w) for kept w}", function=site)
                 if len(seen_sets) < 2 ** len(worlds):
